@@ -23,6 +23,71 @@ import (
 type Config struct {
 	NumNodes       int `json:"num_nodes"`
 	BenchNumRounds int `json:"bench_num_rounds"`
+	// NodeOps, when non-nil, selects the spec's other instantiation (commented out in shopcart.tla,
+	// generated all the same):
+	//
+	//	fair process (Node \in NodeSet) == instance ANode(ref crdt[_], ref in, ref out)
+	//	    mapping crdt[_] via AWORSet mapping in via InputQueue;
+	//
+	// with `in` = these commands (nil = ANodeBench, add-only).  ANode does not maintain the causal
+	// history `c` itself (only ANodeBench does), so the environment records it: the InputQueue read
+	// that hands command number k to node n also puts <<cmd, elem, k>> into c[n]; UpdateCRDT
+	// unions c on every merge exactly as in the spec.
+	NodeOps []Op `json:"node_ops,omitempty"`
+}
+
+// Op is one shopping-cart command of the input queue.
+type Op struct {
+	Remove bool   `json:"remove,omitempty"`
+	Elem   string `json:"elem"`
+}
+
+// SpecOps is the `in` of shopcart.tla.
+var SpecOps = []Op{{false, "1"}, {true, "2"}, {false, "2"}, {true, "1"}}
+
+func (o Op) tla() tla.Value {
+	cmd := 1
+	if o.Remove {
+		cmd = 2
+	}
+	return tla.MakeRecord([]tla.RecordField{{Key: kCmd, Value: num(cmd)}, {Key: kElem, Value: str(o.Elem)}})
+}
+
+func (c Config) elemValues() []tla.Value {
+	var out []tla.Value
+	if c.NodeOps != nil {
+		seen := map[string]bool{}
+		for _, o := range c.NodeOps {
+			if !seen[o.Elem] {
+				seen[o.Elem] = true
+				out = append(out, str(o.Elem))
+			}
+		}
+		return out
+	}
+	for _, e := range c.ElemSet() {
+		out = append(out, num(e))
+	}
+	return out
+}
+
+// InputQueue: read { await Len($variable) > 0; with (r = Head($variable)) { $variable := Tail($variable); yield r } }
+// plus the bookkeeping of c described at Config.NodeOps.
+func (c Config) inRead(t *ss.Txn, cur tla.Value, _ []tla.Value) (tla.Value, tla.Value, error) {
+	n := cur.AsTuple().Len()
+	if n == 0 {
+		return tla.Value{}, tla.Value{}, ss.ErrAbort
+	}
+	r := tla.ModuleHead(cur)
+	k := len(c.NodeOps) - n + 1
+	hist := t.Get("c")
+	mine := tla.ModuleUnionSymbol(hist.ApplyFunction(t.Self), tla.MakeSet(tla.MakeTuple(r.ApplyFunction(kCmd), r.ApplyFunction(kElem), num(k))))
+	t.Set("c", envproc.Except(hist, t.Self, mine))
+	return tla.ModuleTail(cur), r, nil
+}
+
+func inWrite(t *ss.Txn, cur tla.Value, _ []tla.Value, v tla.Value) (tla.Value, error) {
+	return tla.ModuleAppend(cur, v), nil
 }
 
 func num(i int) tla.Value    { return tla.MakeNumber(int32(i)) }
@@ -203,10 +268,7 @@ type mk = func(*ss.Txn) distsys.ArchetypeResource
 
 // New builds the closed system: process 0 = UpdateCRDT (self 0), process i = Node(i).
 func New(c Config) *ss.System {
-	var elems []tla.Value
-	for _, e := range c.ElemSet() {
-		elems = append(elems, num(e))
-	}
+	elems := c.elemValues()
 	elemSet := tla.MakeSet(elems...)
 	consts := []distsys.MPCalContextConfigFn{
 		distsys.DefineConstantValue("NumNodes", num(c.NumNodes)),
@@ -221,9 +283,23 @@ func New(c Config) *ss.System {
 	sys := &ss.System{}
 	sys.Procs = append(sys.Procs, ss.ProcDef{Name: "UpdateCRDT(0)", Self: num(0), Arch: c.updateCRDT(), Config: consts,
 		RefParams: map[string]mk{"crdt": wholeCrdt, "c": wholeHist}})
+	in := func(t *ss.Txn) distsys.ArchetypeResource { return ss.Var(t, "in", false, c.inRead, inWrite) }
 	for i := 1; i <= c.NumNodes; i++ {
+		if c.NodeOps != nil {
+			sys.Procs = append(sys.Procs, ss.ProcDef{Name: fmt.Sprintf("Node(%d)", i), Self: num(i), Arch: gen.ANode, Config: consts,
+				RefParams: map[string]mk{"crdt": crdt, "in": in, "out": out}})
+			continue
+		}
 		sys.Procs = append(sys.Procs, ss.ProcDef{Name: fmt.Sprintf("Node(%d)", i), Self: num(i), Arch: gen.ANodeBench, Config: consts,
 			RefParams: map[string]mk{"crdt": crdt, "out": out, "c": hist}})
+	}
+	ops := c.NodeOps
+	if ops == nil {
+		ops = SpecOps
+	}
+	var inV []tla.Value
+	for _, o := range ops {
+		inV = append(inV, o.tla())
 	}
 	null := c.null()
 	emptyMap := tla.MakeRecord(nil)
@@ -234,12 +310,7 @@ func New(c Config) *ss.System {
 		"crdt": tla.MakeFunction([]tla.Value{c.nodeSet()}, func([]tla.Value) tla.Value {
 			return tla.MakeRecord([]tla.RecordField{{Key: kAdd, Value: emptyMap}, {Key: kRem, Value: emptyMap}})
 		}),
-		"in": tla.MakeTuple(
-			tla.MakeRecord([]tla.RecordField{{Key: kCmd, Value: num(1)}, {Key: kElem, Value: str("1")}}),
-			tla.MakeRecord([]tla.RecordField{{Key: kCmd, Value: num(2)}, {Key: kElem, Value: str("2")}}),
-			tla.MakeRecord([]tla.RecordField{{Key: kCmd, Value: num(1)}, {Key: kElem, Value: str("2")}}),
-			tla.MakeRecord([]tla.RecordField{{Key: kCmd, Value: num(2)}, {Key: kElem, Value: str("1")}}),
-		),
+		"in":  tla.MakeTuple(inV...),
 		"out": tla.Value{},
 		"c":   tla.MakeFunction([]tla.Value{c.nodeSet()}, func([]tla.Value) tla.Value { return tla.MakeSet() }),
 	}
@@ -269,6 +340,23 @@ func (c Config) StrongConvergence(s *ss.State) (string, string) {
 		for j := i + 1; j <= c.NumNodes; j++ {
 			if c.hist(s, i).Equal(c.hist(s, j)) && !c.crdt(s, i).Equal(c.crdt(s, j)) {
 				return "shopcart/StrongConvergence", fmt.Sprintf("nodes %d and %d know the same updates %s but hold %s and %s", i, j, ss.Canon(c.hist(s, i)), ss.Canon(c.crdt(s, i)), ss.Canon(c.crdt(s, j)))
+			}
+		}
+	}
+	return "", ""
+}
+
+// EqualKnowledgeEqualReads is the property statement itself: two replicas that know exactly the
+// same operations (c[i] = c[j]) read the same cart (Query).  It fails on the unchanged tree for
+// the ANode instantiation with >= 3 nodes: Merge keeps either the merged add clock or the merged
+// remove clock and drops the other, and a remove builds its clock from Null, so the state is not
+// a function of the causal history (known finding).
+func (c Config) EqualKnowledgeEqualReads(s *ss.State) (string, string) {
+	for i := 1; i <= c.NumNodes; i++ {
+		for j := i + 1; j <= c.NumNodes; j++ {
+			if c.hist(s, i).Equal(c.hist(s, j)) && !Query(c.crdt(s, i)).Equal(Query(c.crdt(s, j))) {
+				return "shopcart/equal-knowledge-different-reads", fmt.Sprintf("nodes %d and %d both know exactly the operations %s but node %d reads the cart %s and node %d reads %s",
+					i, j, ss.Canon(c.hist(s, i)), i, ss.Canon(Query(c.crdt(s, i))), j, ss.Canon(Query(c.crdt(s, j))))
 			}
 		}
 	}
